@@ -69,7 +69,8 @@ def model_programs(chk: Check, tier, rng):
     return progs
 
 
-VARIANTS = [("list", False), ("list", True), ("single", False), ("gen_return", False), ("gen_yield", True)]
+VARIANTS = [("list", False), ("list", True), ("single", False), ("gen_return", False), ("gen_yield", True),
+            ("gen_sleep", False), ("gen_sleep", True)]
 
 
 def run(tier, seed, replay=None):
